@@ -52,10 +52,34 @@ def always_ok(ctx, fn_path):
     return bool(cps) and all(agg_variant(p.ret) == 'Ok' for p in cps)
 
 
-def arm_paths(ctx, d, arm, res):
+def paths_from_arm(d, arm):
+    """paths of the dispatcher from the entry of `arm` on.  The whole coroutine is enumerated from its start (so that values
+    bound before the match, e.g. `let Message { transaction_id, body } = message`, are known) and every path through the
+    arm is cut to its part from the arm's entry block; what happens before the match is common to all arms."""
     env = lib.coroutine_param_env(d.body)
     s = Sym(d.body)
-    s.run(start=d.arms[arm], env=env)
+    s.run(start=0, env=env)
+    entry = d.arms[arm]
+    kept, seen = [], set()
+    for p in s.paths:
+        if entry not in p.blocks:
+            continue
+        i = p.blocks.index(entry)
+        tail = tuple(p.blocks[i:])
+        if tail in seen:
+            continue
+        seen.add(tail)
+        later = set(tail)
+        p.effects = [e for e in p.effects if (e[3] if len(e) > 3 else None) in later]
+        p.conds = [c for c in p.conds if c[2] in later]
+        p.blocks = list(tail)
+        kept.append(p)
+    s.paths = kept
+    return s
+
+
+def arm_paths(ctx, d, arm, res):
+    s = paths_from_arm(d, arm)
     res.paths += len(s.paths)
     # a loop inside an arm is fine as long as it does not talk to the socket (a loop that builds the reply's lists)
     bad = [p for p in s.paths if p.end not in ('return', 'await-pending') and not (p.end == 'loop' and not sends_of(p))]
@@ -340,9 +364,24 @@ def rule_families(ctx, res):
                 if isinstance(b2, tuple) and b2[0] == 'not':
                     return ('IP', {k for k in ipv if ipv[k] not in b2[1]})
                 return ('IP', {iinv[b2]})
+        def defaulted(t):
+            """`want.unwrap_or(D)` with D a Want variant known on this path (chosen from the own family): returns D"""
+            t = strip_transparent(t)
+            if isinstance(t, tuple) and t[0] == 'call' and t[1].split('::')[-1] == 'unwrap_or' and len(t[2]) == 2 and is_param(strip_transparent(t[2][0])) \
+                    and strip_transparent(t[2][0])[1] == 3 and agg_variant(strip_transparent(t[2][1])) in want:
+                return agg_variant(strip_transparent(t[2][1]))
+            return None
         if rel == 'bool' and term_int(a) is not None:
             return None
+        if rel == 'variant' and defaulted(a) is not None:
+            d_ = defaulted(a)
+            hit = {k for k in want if want[k] not in b2[1]} if isinstance(b2, tuple) and b2[0] == 'not' else {winv[b2]}
+            return ('W', hit | ({'None'} if d_ in hit else set()))
         if rel == 'eq' and truth is not None:
+            for x, y in ((a, b2), (b2, a)):
+                if isinstance(x, tuple) and defaulted(x) is not None and agg_variant(y) in want:
+                    hit = {agg_variant(y)} | ({'None'} if defaulted(x) == agg_variant(y) else set())
+                    return ('W', hit if truth else set(W) - hit)
             # `want == Want::V4` / `want != Want::V6` (derived PartialEq) instead of a match
             for x, y in ((a, b2), (b2, a)):
                 if isinstance(x, tuple) and is_param(root_of(x)) and root_of(x)[1] == 3 and field_chain(x) in (['0'], []) and agg_variant(y) in want:
@@ -427,10 +466,12 @@ def rule_families(ctx, res):
                 pl = pipeline(e)
                 names = [x[0] for x in pl]
                 src = pl[0][1]
-                good = (names == ['src', 'filter', 'take', 'map', 'collect'] and src[0] == 'call' and src[1] == 'table::RoutingTable::closest_nodes'
-                        and is_param(strip_transparent(src[2][1]), 'target') and term_int(pl[2][1]) == 8)
+                # `.take(8).map(f)` and `.map(f).take(8)` yield the same list (the map closure is checked to be the plain handle copy below)
+                stage = {x[0]: x[1] for x in pl if len(x) > 1}
+                good = (names in (['src', 'filter', 'take', 'map', 'collect'], ['src', 'filter', 'map', 'take', 'collect']) and src[0] == 'call' and src[1] == 'table::RoutingTable::closest_nodes'
+                        and is_param(strip_transparent(src[2][1]), 'target') and term_int(stage['take']) == 8)
                 if good:
-                    filters.setdefault(i, set()).add((pl[1][1], pl[3][1]))
+                    filters.setdefault(i, set()).add((stage['filter'], stage['map']))
                 out.append(True if good else 'bad-pipeline:%s' % names)
         return tuple(out)
 
